@@ -70,7 +70,8 @@ OBLIGATIONS = [
                 "arbitrary `have` pre-state in resume_fetch/helper_upload_caps)"),
     chx("helper_upload_caps", "C44_h", "h_helper_upload_caps", timeout=T,
         cases={"quick": [{"pre": pre, "nf": nf, "ns": ns, "nskip": 2, "_label": "%s,%d-fetches,%d-subchunks" % (pre, nf, ns)}
-                         for pre in ("none", "incoming") for nf in (0, 1, 2) for ns in (1, 2) if not (pre == "none" and nf == 0)]
+                         for pre in ("none", "incoming") for nf in (0, 1, 2) for ns in (1, 2)
+                         if not (pre == "none" and nf == 0) and not (pre == "incoming" and nf == 2 and ns == 2)]
                         + [{"pre": "encoding", "nf": 1, "ns": 1, "_label": "encoding-complete"}],
                "thorough": [{"pre": pre, "nf": nf, "ns": ns, "nskip": 3, "_label": "%s,%d-fetches,%d-subchunks" % (pre, nf, ns)}
                             for pre in ("none", "incoming") for nf in (0, 1, 2, 3) for ns in (1, 2) if not (pre == "none" and nf == 0)]
@@ -95,8 +96,7 @@ OBLIGATIONS = [
              "those of the direct upload, the helper-side encoder input equals the direct one, the resumed transfer fetched exactly [J*CHUNK_SIZE, size)",
         outside=_OUT_ENC + "; larger files in the one-step obligations interrupted_state + helper_upload_caps + direct_upload_caps"),
     chx("checker_decision", "C44_h", "h_checker_decision", timeout=T,
-        cases={"quick": [{"P": 2, "S": 2, "N": n, "_label": "2servers,2shares,N=%d" % n} for n in (1, 2, 3)]
-                        + [{"P": 2, "S": 3, "N": 3, "_label": "2servers,3shares,N=3"}],
+        cases={"quick": [{"P": 2, "S": 2, "N": n, "_label": "2servers,2shares,N=%d" % n} for n in (1, 2, 3)],
                "thorough": [{"P": 3, "S": 2, "N": n, "_label": "3servers,2shares,N=%d" % n} for n in (1, 2, 3)]
                            + [{"P": 2, "S": 3, "N": n, "_label": "2servers,3shares,N=%d" % n} for n in (2, 3, 4)]
                            + [{"P": 3, "S": 3, "N": 3, "_label": "3servers,3shares,N=3"}]},
@@ -107,7 +107,8 @@ OBLIGATIONS = [
         outside="share header parsing (ReadBucketProxy stand-in); a UEB that fails on the one share tried makes the file count as absent even if other shares are "
                 "intact (documented in the code: 'If we get an error, declare the whole file unavailable'; errs on the side of uploading)"),
     chx("helper_decision", "C44_h", "h_helper_decision", timeout=T,
-        cases={"quick": [{"S": 2, "N": n, "_label": "2shares,N=%d" % n} for n in (1, 2)],
+        cases={"quick": [{"S": 2, "N": n, "conc": c, "_label": "2shares,N=%d,%s" % (n, ("one-after-the-other", "concurrent")[c])}
+                         for n in (1, 2) for c in (0, 1)],
                "thorough": [{"S": 2, "N": 3, "_label": "2shares,N=3"}] + [{"S": 3, "N": n, "_label": "3shares,N=%d" % n} for n in (1, 2, 3, 4)]},
         desc="Helper.remote_upload_chk/_check_chk/_did_chk_check/_make_chk_upload_helper with the real checker, two clients asking about the same storage index one "
              "after the other or concurrently (second request before the servers answered the first), symbolic grid contents, an upload of this / of another storage "
@@ -116,7 +117,8 @@ OBLIGATIONS = [
              "a running upload is re-used without asking the grid; other storage indexes untouched; counters",
         outside="more than two clients / two servers"),
     chx("present_flow", "C44_h", "h_present_flow", timeout=T,
-        cases={"quick": [{"N": n, "_label": "N=%d" % n} for n in (1, 2)], "thorough": [{"N": n, "_label": "N=%d" % n} for n in (1, 2, 3)]},
+        cases={"quick": [{"N": n, "e0": e, "_label": "N=%d,server0-%s-share0" % (n, ("lacks", "holds")[e])} for n in (1, 2) for e in (0, 1)],
+               "thorough": [{"N": n, "_label": "N=%d" % n} for n in (1, 2, 3)]},
         desc="whole flow with the real checker: Uploader.upload -> AssistedUploader -> Helper.remote_upload_chk over a symbolic grid (2 servers x 2 share numbers, "
              "symbolic UEB-read outcome): file completely in the grid => caps (key | SI, hash of the UEB found there, k, N, size) and NOTHING is fetched, read, "
              "encrypted, encoded or written on the helper; otherwise exactly one upload happens and the caps carry that encoding's UEB hash",
@@ -130,20 +132,23 @@ OBLIGATIONS = [
                 "crypttext_hash against its own ciphertext: integrity of the UEB-hash slot rests on the helper (the property does not state a check either); "
                 "pre-1.3.0 helper result conversion"),
     chx("two_clients", "C44_h", "h_two_clients", timeout=T,
-        cases={"quick": [{"nf": 1, "adie": a, "tmin": 0, "tmax": 7, "late": 0, "_label": _tc_label(1, a, 0, 7)} for a in (-1, 0, 1, 2)]
-                        + [{"nf": 2, "adie": -1, "tmin": lo, "tmax": hi, "late": 0, "_label": _tc_label(2, -1, lo, hi)} for (lo, hi) in ((0, 3), (4, 8))],
+        cases={"quick": [{"nf": 1, "adie": a, "tmin": lo, "tmax": hi, "late": 0, "_label": _tc_label(1, a, lo, hi)}
+                         for a in (-1, 0, 1, 2) for (lo, hi) in ((0, 3), (4, 7))]
+                        + [{"nf": 2, "adie": 2, "tmin": lo, "tmax": hi, "late": 0, "_label": _tc_label(2, 2, lo, hi)} for (lo, hi) in ((0, 1), (2, 3))],
                "thorough": [{"nf": nf, "adie": a, "tmin": lo, "tmax": hi, "late": 0, "_label": _tc_label(nf, a, lo, hi)}
                             for nf in (1, 2, 3) for a in range(-1, 3 + nf) for (lo, hi) in ((0, 3), (4, 6), (7, 6 + nf))]},
         desc="message schedules: every remote call queued and delivered FIFO one per step; client B starts uploading the same file before any delivery step; client A's "
              "connection is lost after it answered ADIE calls (each ADIE, or never) - the helper fails over to B inside one transfer (AskUntilSuccessMixin.call) or B "
-             "resumes from CHK_incoming/CHK_encoding with a new upload helper: B always ends with the caps of a direct upload, A too if it stayed connected; every "
+             "resumes from CHK_incoming/CHK_encoding with a new upload helper; B's upload() may also arrive after the upload it was attached to has ended (results are "
+             "handed over; a failure is handed over as that failure and B starts again): B always ends with the caps of a direct upload, A too if it stayed connected; every "
              "encoder run got exactly the file's ciphertext; answered requests are contiguous (no byte fetched twice for one encoding, no transfer left incomplete); "
              "B arriving while A's upload runs => one upload helper, one transfer, one encoding",
-        outside="schedules in which B's upload() message reaches an upload helper that has already ended: obligation late_attach"),
+        outside="more than two clients; reordering of messages of one connection"),
     chx("late_attach", "C44_h", "h_two_clients", timeout=T,
         cases={"quick": [{"nf": nf, "adie": -1, "tmin": 0, "tmax": 6 + nf, "late": 1, "_label": "%d-chunk-file" % nf} for nf in (1, 2)],
                "thorough": [{"nf": nf, "adie": -1, "tmin": 0, "tmax": 6 + nf, "late": 1, "_label": "%d-chunk-file" % nf} for nf in (1, 2, 3)]},
-        desc="the remaining schedules of two_clients: B was handed the running upload helper by remote_upload_chk, and that upload finished (successfully) before B's "
-             "upload() message arrived: B must still get the results (CHKUploadHelper keeps them in a one-shot observer list for late subscribers) and build the same caps",
-        outside="the upload B was attached to ended in failure (B is handed a failure and starts over)"),
+        desc="guard for fix 1f4e7ae, the late-attach schedules of two_clients on their own: B was handed the running upload helper by remote_upload_chk, and that upload "
+             "finished (successfully) before B's upload() message arrived: B must still get the results (CHKUploadHelper keeps them in a one-shot observer list for "
+             "late subscribers) and build the same caps, not an AttributeError",
+        outside="the upload B was attached to ended in failure: covered in two_clients (B is handed that failure and starts over)"),
 ]
